@@ -11,9 +11,21 @@ if TYPE_CHECKING:
 
 class GtfIterator(SequenceIterator):
     """ GTF Iterator """
+    modes = 't'
+
     def __init__(self, source:Union[IO, str], mode='t'):
         """ Constructor """
-        super().__init__(source=source, mode=mode, fmt='GTF')
+        try:
+            super().__init__(source=source, mode=mode, fmt='GTF')
+        except TypeError:
+            # Biopython >= 1.85 no longer takes `mode` and no longer calls
+            # `parse` itself.
+            super().__init__(source=source, fmt='GTF')
+            self.records = self.parse(self.stream)
+
+    def __next__(self):
+        """ next """
+        return next(self.records)
 
     def parse(self, handle:IO[str]) -> Iterable[GTFSeqFeature]:
         """ parse
